@@ -306,6 +306,9 @@ def layer_b(ctx, report, nfiles):
                   "rep_runs": rng.choice(["rle", "bp", "mix"]), "page_bounds_rg": per_rg, "stats": False}
             if use_dict:
                 ch.update({"dict": True, "dict_data_enc": rng.choice([8, 2]), "index_runs": rng.choice(["rle", "bp", "mix"])})
+            if use_dict and any(len(b) >= 1 for b in per_rg) and (rng.random() < 0.35 or idx % 7 == 3):
+                # dictionary fallback inside the chunk: dictionary-encoded pages first, PLAIN pages after page `fallback_after`
+                ch["fallback_after"] = 1
             if v2:
                 ch["v2_compressed"] = rng.random() < 0.7
             if inside:
@@ -351,7 +354,7 @@ def layer_b(ctx, report, nfiles):
             continue
         inside = nonlocal_flags["inside"]
         desc = {"layer": "file", "kind": kind, "name": name, "rows": n, "row_groups": len(rgs), "outer_optional": outer_opt, "inner_optional": inner_opt,
-                "prim": prim[0], "v2": v2, "dict": use_dict, "pages": [[len(b) + 1 for b in ch["page_bounds_rg"]] for ch in chs[1:]], "split_inside_row": inside,
+                "prim": prim[0], "v2": v2, "dict": use_dict, "fallback": any(c.get("fallback_after") is not None for c in chs[1:]), "pages": [[len(b) + 1 for b in ch["page_bounds_rg"]] for ch in chs[1:]], "split_inside_row": inside,
                 "continuation_without_value": nonlocal_flags["cont_no_value"],
                 "codec": chs[1]["codec"]}
         work.append((path, blob, desc, intended, cert_expect, name))
